@@ -105,6 +105,14 @@ def run(res):
                 if r != 'ERR RuntimeError':
                     res.violation('%s(%r) of a non-state gives %s, expected RuntimeError' % (what, probe, r if isinstance(r, str) else 'a value'),
                                   {'S': S, 'S0': S0, 'R': rs, 'L': L, 'probe': repr(probe)})
+        # labels(x) / next(x) for every state and two non-states, against the model's labelsAt / nextAt
+        probes = nodes + [max(nodes) + 5, max(nodes) + 6]
+        lines.append('KACCESS|%s|%s|%s|%s|%s' % (' '.join(map(str, S)), ' '.join(map(str, S0)), enc_pairs(rs), Lenc,
+                                                 ' '.join(map(str, probes))))
+        impl.append(' ; '.join('%s / %s' % (attempt(lambda: 'OK ' + ' '.join(sorted(enc_name(l) for l in K.labels(x)))),
+                                            attempt(lambda: 'OK ' + ' '.join(map(str, sorted(K.next(x))))))
+                               for x in probes))
+        descr.append(('access', S, S0, rs, L, probes))
         own = set(id(v) for v in K._labels.values())
         snap = canon(K)
         lines.append('KCLONE|%s|%s|%s|%s' % (' '.join(map(str, S)), ' '.join(map(str, S0)), enc_pairs(rs), Lenc))
